@@ -196,7 +196,7 @@ Proof.
   intros HJ Hl Hc. unfold l_commit_key in Hc. destruct (cv <? l_min_commit (ll_rec l)); [discriminate|].
   destruct (find_start (ks_recs ks) (l_ts (ll_rec l))) as [r0|] eqn:Hf.
   - destruct (op_eqb (lr_kind r0) OpRollback) eqn:Hk; [discriminate|].
-    destruct (lr_ts r0 =? cv); inversion Hc; subst ks1; [now left|].
+    inversion Hc; subst ks1.
     right. split; [reflexivity|]. exists r0. cbn [ks_recs]. split; [exact Hf|]. intro E. rewrite E in Hk. discriminate.
   - inversion Hc; subst ks1. right. split; [reflexivity|]. cbn [ks_recs].
     set (nr := {| lr_ts := cv; lr_kind := l_kind (ll_rec l); lr_start := l_ts (ll_rec l); lr_val := ll_val l |}).
@@ -290,6 +290,10 @@ Proof.
   - destruct (negb (l_ts (ll_rec l) =? lts)) eqn:Hts.
     { cbn [fst]. unfold l_check. rewrite Hl, Hts. apply aeq_refl. }
     apply negb_false_iff in Hts.
+    assert (Hfn : find_start (ks_recs (ls_at a primary)) lts = None).
+    { destruct (find_start (ks_recs (ls_at a primary)) lts) as [r|] eqn:Hf0; [|reflexivity].
+      exfalso. apply find_start_some in Hf0 as [H1 H2]. apply (J_lock_fresh _ (HJ primary) l r Hl H1). lia. }
+    rewrite Hfn.
     destruct (lock_expired (ll_rec l) cur) eqn:Hexp.
     + cbn [fst]. unfold l_check. rewrite ls_at_lupd, bytes_eqb_refl.
       pose proof (rollback_key_unlocks _ lts l (HJ primary) Hl ltac:(lia)) as Hu.
@@ -303,11 +307,11 @@ Proof.
         rewrite Hfa.
         cbn. apply aeq_refl.
     + destruct ((0 <? caller) && (l_min_commit (ll_rec l) <? wrap64 (caller + 1))) eqn:Hp.
-      * cbn [fst]. unfold l_check. rewrite ls_at_lupd, bytes_eqb_refl. cbn [ks_lock ll_rec l_ts].
-        rewrite Hts. cbn [negb]. unfold lock_expired in *. cbn [l_ttl l_ts l_min_commit]. rewrite Hexp.
+      * cbn [fst]. unfold l_check. rewrite ls_at_lupd, bytes_eqb_refl. cbn [ks_lock ks_recs ll_rec l_ts].
+        rewrite Hts. cbn [negb]. rewrite Hfn. unfold lock_expired in *. cbn [l_ttl l_ts l_min_commit]. rewrite Hexp.
         assert (E : (0 <? caller) && (wrap64 (caller + 1) <? wrap64 (caller + 1)) = false) by lia. rewrite E.
         apply aeq_refl.
-      * cbn [fst]. unfold l_check. rewrite Hl, Hts. cbn [negb]. rewrite Hexp, Hp. apply aeq_refl.
+      * cbn [fst]. unfold l_check. rewrite Hl, Hts. cbn [negb]. rewrite Hfn, Hexp, Hp. apply aeq_refl.
   - destruct (find_start (ks_recs (ls_at a primary)) lts) as [r|] eqn:Hf.
     + assert (E : fst (if op_eqb (lr_kind r) OpRollback then (a, cr_ok ActLockNotExistRollback 0 0) else (a, cr_ok ActNone 0 (lr_ts r))) = a)
         by (destruct (op_eqb (lr_kind r) OpRollback); reflexivity).
